@@ -24,6 +24,9 @@ RULES = {
              "both sides, accumulation not overwrite: overlapping windows add up)",
     "R01.7": "axis typing of every backward kernel (no height/width mix-up): Convolution::backward, convolve_gradients, rotate, "
              "rearrange, Deconvolution::backward, Maxpool::backward",
+    "R01.9": "gradient scale factors: the `loops` / `scale` fields that every backward pass multiplies into delta are written only by "
+             "Network::loopback (MIR field writes) and start at 1.0 in every constructor",
+    "R01.10": "the helpers that reshape gradients between flat and CxHxW form (get_triple, flatten, get_flat) are row-major (R14.2 re-run)",
     "R01.8": "spatial backward prologue: derivative = activation.backward(output) and delta = hadamard3d(gradient, derivative, "
              "scale(loops)), with gradient/derivative reshaped by get_triple(self.outputs) and input by get_triple(self.inputs)",
 }
@@ -395,7 +398,43 @@ def r8(ctx):
             ctx.check("R01.8", nm + ":components", okk and okx, "result-components", where, "components are the computed gradients")
 
 
+def r9(ctx):
+    """gradient scale factors (`loops`, `scale`) are 1 / identity unless a loop connection was registered"""
+    c = ctx.crate
+    layers = ("dense::Dense", "convolution::Convolution", "deconvolution::Deconvolution", "maxpool::Maxpool")
+    n = 0
+    for mk, mv in c.mir.items():
+        for w in mv["facts"]["writes"] + mv["facts"]["mutborrows"]:
+            if w["adt"] in layers and w["field"] in ("loops", "scale"):
+                n += 1
+                parent = mv["parent"]
+                ctx.check("R01.9", "write:%s:%s.%s" % (parent, w["adt"].split("::")[-1], w["field"]), parent == "network::Network::loopback",
+                          "scale-factor-written-outside-loopback", "%s:%s" % (mk, w["line"]), "written by Network::loopback",
+                          "%s writes %s.%s: every layer multiplies its delta by scale(loops), so the gradients are scaled although no loop connection exists" % (mk, w["adt"], w["field"]))
+    for adt in layers:
+        fn = ctx.fn(adt + "::create")
+        lit = [x for x in walk(fn["body"]) if x.get("k") == "struct" and x["path"].endswith(adt)]
+        fs = dict((a_, e_) for a_, e_ in lit[0]["fs"]) if lit else {}
+        ok = e4.lit_value(fs.get("loops")) == "1.0" if fs.get("loops") is not None else False
+        ctx.check("R01.9", "initial-loops:" + adt.split("::")[-1], ok, "initial-loops-not-1", c.loc(fn), "loops: 1.0")
+    ctx.floor("R01.9", 7 + 4, "7 writes in loopback, 4 constructors")
+
+
+def r10(ctx):
+    """the reshaping helpers the backward passes rely on are row-major (C14's rules re-run here)"""
+    from . import c14
+    sub = type(ctx)(ctx.prop, ctx.facts)
+    sub.guard("R14.2", "flatten", c14.r2_flatten, sub)
+    bad = [o for o in sub.obligations if o["status"] != "ok"]
+    for o in bad:
+        ctx.bad("R01.10", "helper:" + o["instance"], o["key"].split("/", 3)[-1], o["where"], o["detail"])
+    ctx.check("R01.10", "reshaping-helpers", not bad and len(sub.obligations) >= 4, "reshaping-helper-broken", "src/tensor.rs",
+              "flatten / get_flat / get_triple are row-major (%d facts)" % len(sub.obligations))
+
+
 def run(ctx):
+    ctx.guard("R01.9", "scale-factors", r9, ctx)
+    ctx.guard("R01.10", "reshaping-helpers", r10, ctx)
     ctx.guard("R01.1", "deconvolution", r1, ctx)
     ctx.guard("R01.2", "convolution", r2, ctx)
     ctx.guard("R01.4", "call-sites", r4, ctx)
